@@ -215,6 +215,8 @@ class Rig:
                     return keep.setdefault((index, subindex), bytearray(v[1]))
                 return None if v is None else py_val(v, od.data_type)
             self.node.add_read_callback(rcb)
+            # a second application callback that has nothing to say: the first answer that is not None counts
+            self.node.add_read_callback(lambda **kw: None)
         self.node.add_write_callback(
             lambda index, subindex, od, data, **kw: self.log.append((index, subindex, bytes(data))))
 
